@@ -439,6 +439,13 @@ class PVLEncoder(object):
         """Returns a ``str`` formatted as a PVL Time based
         on the *value* object according to the rules of this encoder.
         """
+        offset = value.utcoffset()
+        if offset is not None and offset != datetime.timedelta():
+            raise ValueError(
+                "PVL has no way to write a time zone offset, all of its "
+                f"times are UTC, but this time is not: {value}"
+            )
+
         s = f"{value:%H:%M}"
 
         if value.microsecond:
@@ -789,7 +796,8 @@ class ODLEncoder(PVLEncoder):
                 f"have a timezone offset: {value}"
             )
 
-        t = super().encode_time(value)
+        # The parent only formats the fields, the zone is written below.
+        t = super().encode_time(value.replace(tzinfo=None))
 
         offset = value.utcoffset()
         if offset == datetime.timedelta():
